@@ -27,7 +27,7 @@ RULE = ("the C01 generator (1-8 stations of mixed EVSE classes and id styles, op
         "last_actual_charging_rate, get_prev_peak, infrastructure arrays), per-period charging rates, final energies, peak and final "
         "iteration are compared with the model replaying the returned schedules; monitors additionally check get_constraints, the "
         "per-station accessors, remaining_amp_periods, the deprecated active_evs accessor, held objects and caller-owned arguments; "
-        "distinct = distinct (network, sessions, recomputes, max_recompute, period, scheduler kind/seed, family, id style); ambiguous = a "
+        "Orthogonal options: 30% of histories also contain bare acnsim.Event / user-defined Event subclasses (own precedence, unknown event_type; also after the last departure); 20% build the Simulator around a still empty EventQueue that the caller fills afterwards through its own reference (sim.event_queue must be that object); family deepcopy (the freshly built simulator is duplicated with copy.deepcopy, the copy is run first, then the original); the resume family continues on the same object, on a deep copy, or on a to_json/from_json reload of the interrupted simulator. distinct = distinct (network, sessions, recomputes, max_recompute, period, scheduler kind/seed, family, id style); ambiguous = a "
         "remaining demand within 1e-7 of 1e-3 (still monitored)")
 ASSUMPTIONS = S_ASSUMPTIONS = [
     "schedulers are modelled as arbitrary functions view -> schedule; isolation of the real objects handed out by the Interface "
@@ -84,8 +84,8 @@ def case_of(inp, impl, mut):
     fam = inp.get("family", "plain")
     kind = ("malformed/" + inp["malformed"]) if inp["malformed"] else ("%s/%s" % ("valid" if fam == "plain" else fam, inp["sched"]["kind"]))
     return dict(input=inp, impl=slim(impl), mut_same=same, coq=coq, ambiguous=amb, kind=kind,
-                sig=[inp["net"], inp["sessions"], inp["recomputes"], inp["max_recompute"], inp["period"], inp["sched"], fam,
-                     inp.get("idstyle")],
+                sig=[inp["net"], inp["sessions"], inp["recomputes"], inp.get("others"), inp["max_recompute"], inp["period"], inp["sched"], fam,
+                     inp.get("idstyle"), inp.get("late_fill")],
                 nontrivial=len(impl["calls"]) > 0, monitor=monitor_full(inp, impl, mut))
 
 
@@ -104,7 +104,7 @@ def slim(impl):
 
 
 MALFORMED = ["overlap", "bad_departure", "bad_estimate", "unknown_station"]
-FAMILIES = [("reuse", 0.07), ("twin", 0.06), ("resume", 0.06), ("netupdate", 0.08)]
+FAMILIES = [("reuse", 0.07), ("twin", 0.05), ("resume", 0.07), ("netupdate", 0.07), ("deepcopy", 0.07)]
 
 
 def gen_cases(rng, n, tier):
@@ -160,13 +160,14 @@ def monitor_full(inp, impl, mut):
     if len(set(times)) != len(times) or times != sorted(times):
         return "scheduler invoked more than once in a period"
     tags = [h[0] for h in impl["hist"]]
+    rtags = [h[0] for h in impl["hist"] if h[1] in S.RESOLVING]      # bare / user-defined events request nothing
     n_periods = impl["iteration"] + (1 if impl["error"] is not None else 0)
     for t in range(n_periods):
         called = t in times
         if impl["error"] is not None and t == impl["iteration"] and not called:
             continue                      # the aborted period: the run may have raised before the call
         earlier = [u for u in times if u < t]
-        want = (t in tags) or (k is not None and (not earlier or t - earlier[-1] >= k))
+        want = (t in rtags) or (k is not None and (not earlier or t - earlier[-1] >= k))
         if called != want:
             return "period %d: scheduler %s although %s" % (t, "invoked" if called else "not invoked",
                                                            "no event and recompute not due" if not want else "it was required")
@@ -265,7 +266,7 @@ def full_monitor(inp):
 
 def search(rng, budget_s, broken):
     t0 = time.time()
-    fams = [None, None, None, "reuse", "twin", "resume", "netupdate"]
+    fams = [None, None, None, "reuse", "twin", "resume", "netupdate", "deepcopy"]
     while time.time() - t0 < budget_s:
         inp = S.gen_input(rng, "quick", family=rng.choice(fams))
         r, impl = full_monitor(inp)
@@ -279,7 +280,7 @@ def shrink(inp, why):
     changed = True
     while changed:
         changed = False
-        for key in ("sessions", "recomputes"):
+        for key in ("sessions", "recomputes", "others"):
             i = 0
             while i < len(inp[key]):
                 cand = dict(inp)
